@@ -166,6 +166,22 @@ func scenC02(r *Run) {
 			sib.Routes[pu.RequestURI()] = JSONResponse(mustJSON(stamp(lie, H1+":8443")))
 		}
 	}
+	// two more services on the same machine: an honest one on :3443 and an attacker's on :4443
+	// (authorities that differ only in the port are different origins, whatever the digits)
+	portPair := t.Chance(1, 4)
+	VS := "https://" + H1 + ":3443/a/vs"
+	if portPair {
+		hon := &Host{Name: H1, Ports: map[string]bool{"3443": true}, Identity: h1.Identity, Honest: true, Routes: map[string]*Response{}, Hits: map[string]int{}}
+		atk := &Host{Name: H1, Ports: map[string]bool{"4443": true}, Identity: h1.Identity, Honest: false, Routes: map[string]*Response{}, Hits: map[string]int{}}
+		w.Hosts[H1+":3443"], w.Hosts[H1+":4443"] = hon, atk
+		vsDoc := Doc{"id": VS, "type": "Person", "preferredUsername": "vs", "name": "Service user", "summary": "<p>real</p>"}
+		serve(VS, vsDoc)
+		lie := Doc{"id": VS, "type": "Person", "preferredUsername": "vs", "name": "FORGED NAME", "summary": "<p>FORGED BIO</p>"}
+		an := "https://" + H1 + ":4443/o/announce"
+		post := "https://" + H1 + ":4443/o/post"
+		serve(an, Doc{"id": an, "type": "Like", "actor": lie, "object": post})
+		serve(post, Doc{"id": post, "type": "Note", "name": "evil", "content": "<p>x</p>", "audience": lie})
+	}
 	victims := []struct {
 		id  string
 		doc Doc
@@ -340,6 +356,10 @@ func scenC02(r *Run) {
 	}
 	// honest entry points too (they must resolve: "reject everything" must not pass)
 	entry = append(entry, N1, V)
+	if portPair {
+		entry = append(entry, "https://"+H1+":4443/o/announce", "https://"+H1+":4443/o/post")
+		shapes = append(shapes, "attacker-on-port-4443-embeds-object-of-the-service-on-port-3443")
+	}
 	if sibling {
 		// the attacker's copies are visited first, then the genuine URLs
 		entry = append([]string{"https://" + H1 + ":8443/a/v", "https://" + H1 + ":8443/o/n1"}, entry...)
